@@ -22,6 +22,7 @@ PROPS = {
     "C07": "vp.harness.c07_deser",
     "C11": "vp.harness.c11_xdef",
     "C12": "vp.harness.c12_const",
+    "C13": "vp.harness.c13_robust",
     "C17": "vp.harness.c17_errloc",
     "C19": "vp.harness.c19_closure",
 }
